@@ -230,7 +230,11 @@ def check_catalog(ctx, mss):
             ctx.violation("forecast_start_epoch_wrong", {"ms": ms, "got": [f.value.start_epoch, f.value.end_epoch]}, {"k": "cat", "ms": [ms]})
 
 
+from pbt.core import TZS  # noqa: E402
+
+
 def check_case(ctx, case):
+    # a case may carry "tz": core.Ctx.check runs it under that process time zone
     k = case["k"]
     if k == "ms":
         check_ms(ctx, sorted(case["ms"]))
@@ -263,6 +267,13 @@ def boundaries(ctx):
     return sorted(set(out))
 
 
+def tzd(draw, case):
+    tz = draw(st.sampled_from(TZS))
+    if tz:
+        case["tz"] = tz
+    return case
+
+
 def run(ctx):
     half = ctx.n(1000, 2000)
     bs = boundaries(ctx)
@@ -270,6 +281,8 @@ def run(ctx):
         if i % ctx.nshards != ctx.shard:
             continue
         case = {"k": "window", "center": b, "half": half}
+        if TZS[i % len(TZS)]:
+            case["tz"] = TZS[i % len(TZS)]
         ctx.check(case)
         ctx.record(case, True, "window")
     ctx.exhaustive["every ms within +-%d ms of %d boundary instants" % (half, len(bs))] = True
@@ -279,7 +292,7 @@ def run(ctx):
 
     def batch_ms(draw):
         base = draw(st.lists(ms_st, min_size=nb, max_size=nb))
-        return {"k": "ms", "ms": base}
+        return tzd(draw, {"k": "ms", "ms": base})
 
     def rec(label):
         def f(c, case):
@@ -287,7 +300,7 @@ def run(ctx):
             key = "ms" if "ms" in case else ("us" if "us" in case else "y")
             vals = case[key]
             nt = any((v % 1000 != 0) if isinstance(v, int) else (v != int(v)) for v in vals)
-            c.record({"k": case["k"], "n": len(vals), "first": vals[:5], **({"aware": case["aware"]} if "aware" in case else {})}
+            c.record({"k": case["k"], "n": len(vals), "first": vals[:5], **({"aware": case["aware"]} if "aware" in case else {}), **({"tz": case["tz"]} if "tz" in case else {})}
                      if len(vals) > 8 else case, nt, label)
         f.__name__ = label
         return f
@@ -304,7 +317,7 @@ def run(ctx):
         for x in xs[: n // 4]:
             m = (x // 1000) * 1000
             ys += [m - 1, m, m + 1, m + 999]
-        return {"k": "us", "us": xs + ys, "aware": draw(st.booleans())}
+        return tzd(draw, {"k": "us", "us": xs + ys, "aware": draw(st.booleans())})
 
     ctx.drive(st.composite(batch_us)(), ctx.n(20, 200), fn=rec("sampled_us"), salt=2)
 
@@ -319,7 +332,7 @@ def run(ctx):
         for y in yrs:
             t = int((D.datetime(y + 1, 1, 1, tzinfo=D.timezone.utc) - EPOCH) // US)
             ys += [t - 1000000, t - 1000, t - 1, t, t + 1, t + 1000]
-        return {"k": "dy", "us": [v for v in xs + ys if LO * 1000 <= v < HI * 1000]}
+        return tzd(draw, {"k": "dy", "us": [v for v in xs + ys if LO * 1000 <= v < HI * 1000]})
 
     ctx.drive(st.composite(batch_dy)(), ctx.n(20, 200), fn=rec("sampled_decimal_year"), salt=3)
 
@@ -327,11 +340,11 @@ def run(ctx):
         n = ctx.n(100, 600)
         ys = draw(st.lists(st.floats(1900, 2199.999), min_size=n, max_size=n))
         ys += [float(int(y)) for y in ys[:20]]
-        return {"k": "dyf", "y": ys}
+        return tzd(draw, {"k": "dyf", "y": ys})
 
     ctx.drive(st.composite(batch_dyf)(), ctx.n(10, 100), fn=rec("sampled_decimal_year_inverse"), salt=4)
 
     def batch_cat(draw):
-        return {"k": "cat", "ms": draw(st.lists(ms_st, min_size=1, max_size=40))}
+        return tzd(draw, {"k": "cat", "ms": draw(st.lists(ms_st, min_size=1, max_size=40))})
 
     ctx.drive(st.composite(batch_cat)(), ctx.n(25, 300), fn=rec("catalog_and_forecast"), salt=5)
